@@ -9,7 +9,8 @@ package main
 // file system; the same abstract tree is sent to the model. Compared: see Corr/PIPE.v.
 //
 // Domain restrictions of the generator (each is a stated scope limit of the model, design.d/PIPE.md):
-//   no patches / replacements / vars / components / configurations / helm / plugins,
+//   patches: only strategic-merge entries (pipe_patches.go; no JSON6902, no patchesStrategicMerge / patchesJson6902,
+//   no allowNameChange / allowKindChange), no replacements / vars / components / configurations / helm / plugins,
 //   generators with literal, env-file and file sources (all behaviours, generatorOptions, binaryData), no immutable;
 //   no `kind: List`, no empty documents, no anchors, no comments,
 //   no internal.config.kubernetes.io annotations in inputs, no ',' in names (PrevIds panic, C12 finding).
@@ -39,7 +40,7 @@ import (
 
 func init() {
 	register("PIPE", propDef{
-		header: "From KV Require Import Corr.PIPE.\nFrom KV Require Labels Res.Replica Res.Image.\nFrom KV Require Gen.LegacyOrder.\n" +
+		header: "From KV Require Import Corr.PIPE.\nFrom KV Require Labels Res.Replica Res.Image Res.Selector.\nFrom KV Require Import Corr.SchemaTable.\nFrom KV Require Gen.LegacyOrder.\n" +
 			"Open Scope string_scope.\n",
 		caseType:   "casePIPE",
 		mismatchFn: "mismatchesPIPE",
@@ -142,6 +143,7 @@ type pipeDir struct {
 	GenOpts      *pipeGenOpts      `json:"genOpts,omitempty"`
 	Replicas     []pipeReplica     `json:"replicas,omitempty"`
 	Images       []pipeImage       `json:"images,omitempty"`
+	Patches      []pipePatch       `json:"patches,omitempty"`
 	Ents         []*pipeEnt        `json:"ents"`
 	parent       *pipeDir
 	depth        int
@@ -159,6 +161,7 @@ type pipeCase struct {
 	Twins bool              `json:"twins"`
 	Merges int              `json:"merges"`
 	Locals int              `json:"locals"`
+	Patches int `json:"patches"`
 }
 
 // ---------------------------------------------------------------- catalogue
@@ -576,6 +579,26 @@ func pipeRandPairs(rng *Rng, maxN int) map[string]string {
 	return m
 }
 
+// binaryKey makes key k of the generator a file source with non-UTF-8 content (binaryData of a ConfigMap)
+func (g *pipeGen) binaryKey(rng *Rng, s *pipeGenSpec, k string) {
+	var lits []string
+	for _, l := range s.Literals {
+		if !strings.HasPrefix(l, k+"=") {
+			lits = append(lits, l)
+		}
+	}
+	s.Literals = lits
+	var fs []pipeSrc
+	for _, f := range s.FileSrcs {
+		if !strings.HasPrefix(f.Spec, k+"=") {
+			fs = append(fs, f)
+		}
+	}
+	g.srcN++
+	pth := fmt.Sprintf("b%d.bin", g.srcN)
+	s.FileSrcs = append(fs, pipeSrc{Spec: k + "=" + pth, Path: pth, Content: []byte{0xff, 0x00, byte(0x41 + rng.Intn(3))}})
+}
+
 func (g *pipeGen) genSpec(rng *Rng, secret bool, layer *pipeDir) pipeGenSpec {
 	s := pipeGenSpec{Name: g.freshName(map[bool]string{false: "ConfigMap", true: "Secret"}[secret])}
 	if g.useNs && rng.Chance(40) {
@@ -610,8 +633,10 @@ func (g *pipeGen) genSpec(rng *Rng, secret bool, layer *pipeDir) pipeGenSpec {
 		for i := 0; i < nf; i++ {
 			pth := fmt.Sprintf("f%d-%d.txt", g.srcN, i)
 			spec := pth
-			if rng.Chance(50) {
-				spec = fmt.Sprintf("fk%d=%s", i, pth)
+			if rng.Chance(60) {
+				// keys shared with the literal keys: a merge over another generator may move a key between
+				// data and binaryData
+				spec = fmt.Sprintf("%s=%s", rng.Pick([]string{"a", "b", "key", "fk"}), pth)
 			}
 			var content []byte
 			switch rng.Intn(4) {
@@ -624,6 +649,9 @@ func (g *pipeGen) genSpec(rng *Rng, secret bool, layer *pipeDir) pipeGenSpec {
 			}
 			s.FileSrcs = append(s.FileSrcs, pipeSrc{Spec: spec, Path: pth, Content: content})
 		}
+	}
+	if !secret && rng.Chance(12) {
+		g.binaryKey(rng, &s, "a")
 	}
 	if secret && rng.Chance(30) {
 		s.Type = rng.Pick([]string{"Opaque", "kubernetes.io/tls", "x"})
@@ -738,6 +766,11 @@ func pipeGenCase(rng *Rng, rules []krusty.VerifC03Rule) *pipeCase {
 					}
 				}
 				sp.Name, sp.Namespace = tg.Name, tg.Ns
+				if kind == "ConfigMap" && sp.Behavior == "merge" && rng.Chance(45) {
+					// a key the target (probably) holds in data arrives as binaryData, or the other way round:
+					// MergeDataMapFrom / MergeBinaryDataMapFrom keep it in one map only
+					g.binaryKey(rng, sp, rng.Pick([]string{"a", "b"}))
+				}
 				if rng.Chance(15) {
 					sp.Namespace = ""
 				}
@@ -913,6 +946,9 @@ func pipeGenCase(rng *Rng, rules []krusty.VerifC03Rule) *pipeCase {
 		}
 	}
 	pc.Locals = g.locals
+	if rng.Chance(55) {
+		pc.Patches = g.genPatches(rng)
+	}
 	pc.Root = "/w/" + top.Name
 	pipeRender(pc)
 	return pc
@@ -996,6 +1032,16 @@ func pipeRenderDir(pc *pipeCase, d *pipeDir, path string, top bool) {
 	}
 	if d.Suffix != "" {
 		k["nameSuffix"] = d.Suffix
+	}
+	if len(d.Patches) > 0 {
+		var pl []interface{}
+		for _, p := range d.Patches {
+			pl = append(pl, pipePatchYaml(p))
+			if !p.Inline {
+				pc.Files[path+"/"+p.File] = strings.Join(p.Docs, "---\n")
+			}
+		}
+		k["patches"] = pl
 	}
 	if len(d.CommonLabels) > 0 {
 		k["commonLabels"] = pipeStrMap(d.CommonLabels)
@@ -1201,7 +1247,7 @@ func pipeCoqGen(s pipeGenSpec) string {
 
 var customFields bool // set by pipeCoqDir when a labels entry carries custom fields (distribution only)
 
-func pipeCoqDir(d *pipeDir, vals map[string]bool) (string, bool) {
+func pipeCoqDir(d *pipeDir, vals map[string]bool, nodes *[]*kyaml.RNode) (string, bool) {
 	var labels, cm, sec, ents []string
 	note := func(m map[string]string) {
 		for k, v := range m {
@@ -1246,10 +1292,11 @@ func pipeCoqDir(d *pipeDir, vals map[string]bool) (string, bool) {
 					return "", false
 				}
 				docs = append(docs, t)
+				*nodes = append(*nodes, rn)
 			}
 			ents = append(ents, "(PFile ["+strings.Join(docs, "; ")+"])")
 		} else {
-			t, ok := pipeCoqDir(e.Dir, vals)
+			t, ok := pipeCoqDir(e.Dir, vals, nodes)
 			if !ok {
 				return "", false
 			}
@@ -1270,9 +1317,13 @@ func pipeCoqDir(d *pipeDir, vals map[string]bool) (string, bool) {
 	for _, im := range d.Images {
 		ims = append(ims, fmt.Sprintf("(Image.mkImage %s %s %s %s %s)", coqStr(im.Name), coqStr(im.NewName), coqStr(im.TagSuffix), coqStr(im.NewTag), coqStr(im.Digest)))
 	}
-	dirs := fmt.Sprintf("(mkPDirsX %s %s %s [%s] %s %s [%s] [%s] %s [%s] [%s])", coqStr(d.Ns), coqStr(d.Prefix), coqStr(d.Suffix),
+	pts, ok := pipeCoqPatches(d, vals, nodes)
+	if !ok {
+		return "", false
+	}
+	dirs := fmt.Sprintf("(mkPDirsP %s %s %s [%s] %s %s [%s] [%s] %s [%s] [%s] [%s])", coqStr(d.Ns), coqStr(d.Prefix), coqStr(d.Suffix),
 		strings.Join(labels, "; "), pipeCoqPairs(d.CommonLabels), pipeCoqPairs(d.CommonAnnos),
-		strings.Join(cm, "; "), strings.Join(sec, "; "), gopts, strings.Join(rps, "; "), strings.Join(ims, "; "))
+		strings.Join(cm, "; "), strings.Join(sec, "; "), gopts, strings.Join(rps, "; "), strings.Join(ims, "; "), pts)
 	return fmt.Sprintf("(PDir %s %s [%s])", coqStr(d.Name), dirs, strings.Join(ents, "; ")), true
 }
 
@@ -1290,7 +1341,8 @@ func pipeCoqSort(pc *pipeCase) string {
 
 func pipeCaseTerm(pc *pipeCase, o pipeOutcome) (string, bool) {
 	vals := map[string]bool{}
-	tree, ok := pipeCoqDir(pc.Top, vals)
+	var nodes []*kyaml.RNode
+	tree, ok := pipeCoqDir(pc.Top, vals, &nodes)
 	if !ok {
 		return "", false
 	}
@@ -1311,7 +1363,22 @@ func pipeCaseTerm(pc *pipeCase, o pipeOutcome) (string, bool) {
 			ns = append(ns, v)
 		}
 	}
-	return fmt.Sprintf("(CPipe %s %s %s %s [%s])", coqStrList(ns), pipeCoqSort(pc), tree, o.Cls, strings.Join(outs, "; ")), true
+	sch := "rn"
+	if pc.Patches > 0 {
+		// the projection of the openapi schema on every path of the inputs, the patches and the outputs (as in C04);
+		// a patch copy carries the apiVersion of its target: one more root per (patch kind, apiVersion) pair
+		if o.Cls == ClsOk {
+			for _, r := range o.M.Resources() {
+				nodes = append(nodes, &r.RNode)
+			}
+		}
+		nodes = append(nodes, pipePatchRoots(pc.Top, nodes)...)
+		sch = dumpSchemaTree(nodes...)
+		if multiKeyDirective {
+			return "", false
+		}
+	}
+	return fmt.Sprintf("(let sch := %s in CPipe %s %s %s %s [%s])", sch, coqStrList(ns), pipeCoqSort(pc), tree, o.Cls, strings.Join(outs, "; ")), true
 }
 
 // ---------------------------------------------------------------- law oracles on the implementation
@@ -1353,11 +1420,8 @@ func pipeTracersIn(d *pipeDir, acc map[string]int) {
 func pipeOracles(pc *pipeCase, o pipeOutcome) [][3]string {
 	var out [][3]string
 	if o.Cls == ClsPanic {
-		// known C12 finding (class panic:api/resmap.(*Factory).FromResourceSlice:explicit-may-not-add): an id collision
-		// among the resources IgnoreLocal keeps panics; the model reproduces it (corpus/PIPE/case_hashclash.json)
-		if strings.Contains(o.Msg, "may not add resource with an already registered id") {
-			return nil
-		}
+		// no exemption: the id collision among the resources IgnoreLocal keeps (former C12 finding, class
+		// panic:api/resmap.(*Factory).FromResourceSlice:explicit-may-not-add) is an error since /repo 9a490e0 + 66fde0c
 		return append(out, [3]string{"no_panic", "PIPE/panic", o.Msg})
 	}
 	if o.Cls != ClsOk {
@@ -1383,7 +1447,8 @@ func pipeOracles(pc *pipeCase, o pipeOutcome) [][3]string {
 	}
 	for id, n := range want {
 		// documents marked local-config may be dropped (IgnoreLocal): at most once then, exactly once otherwise
-		if (pc.Locals == 0 && got[id] != n) || got[id] > n {
+		// ... and so may what a patch deletes (the resource, or its annotations)
+		if (pc.Locals == 0 && pc.Patches == 0 && got[id] != n) || got[id] > n {
 			out = append(out, [3]string{"identity_multiset", "PIPE/identity-multiset", fmt.Sprintf("tracer %s: %d inputs, %d outputs", id, n, got[id])})
 			break
 		}
@@ -1435,6 +1500,7 @@ func runPIPE(r *Run, rng *Rng, tier string) error {
 		pc := pipeGenCase(rng.Fork(), rules)
 		pipeOne(r, pc, debug, false)
 	}
+	r.header += internHeader() // strings of the schema projections (dumpSchemaTree)
 	return nil
 }
 
@@ -1474,6 +1540,9 @@ func pipeCountKinds(r *Run, d *pipeDir, depth int, maxDepth *int, ndirs *int) {
 }
 
 func pipeOne(r *Run, pc *pipeCase, debug bool, corpus bool) {
+	if pc.Patches == 0 {
+		pc.Patches = pipeCountPatches(pc.Top)
+	}
 	o := pipeRun(pc.Files, pc.Root)
 	md, nd := 0, 0
 	pipeCountKinds(r, pc.Top, 1, &md, &nd)
